@@ -61,11 +61,20 @@ FUNCS = [
     ("rtrlib/lib/ip.c", "lrtr_ip_addr_is_zero", {}),
     ("rtrlib/lib/ip.c", "lrtr_ip_addr_get_bits", {}),
     ("rtrlib/lib/ip.c", "lrtr_ip_addr_equal", {}),
+    ("rtrlib/pfx/trie/trie.c", "is_left_child", {}),
+    ("rtrlib/spki/hashtable/ht-spkitable.c", "tommy_inthash_u32", {}),
+    ("rtrlib/lib/convert_byte_order.c", "lrtr_convert_short", {}),
+    ("rtrlib/lib/convert_byte_order.c", "lrtr_convert_long", {}),
+    ("rtrlib/rtr/rtr.c", "rtr_get_interval_mode", {}),
+    ("rtrlib/rtr/rtr.c", "rtr_set_interval_mode", {}),
     ("rtrlib/rtr/packets.c", "rtr_check_interval_range", {}),
     ("rtrlib/rtr/packets.c", "apply_interval_value", {}),
     ("rtrlib/rtr/packets.c", "rtr_check_interval_option", {}),
     ("rtrlib/rtr/packets.c", "rtr_get_pdu_type", {"mem": ["pdu"]}),
     ("rtrlib/rtr/packets.c", "rtr_pdu_check_size", {"mem": ["pdu"]}),
+    ("rtrlib/rtr/packets.c", "rtr_pdu_convert_header_byte_order", {"mem": ["pdu"], "writes": True}),
+    ("rtrlib/rtr/packets.c", "rtr_pdu_header_to_host_byte_order", {"mem": ["pdu"], "writes": True}),
+    ("rtrlib/rtr/packets.c", "rtr_pdu_header_to_network_byte_order", {"mem": ["pdu"], "writes": True}),
 ]
 
 LEAN_RESERVED = {"from", "type", "end", "at", "with", "do", "then", "else", "if", "let", "have", "show", "fun", "in",
@@ -149,8 +158,15 @@ def parse_type(t):
     bad("unsupported type '%s'" % s)
 
 
+TYPEDEFS = {}
+
+
 def parse_type_str(s):
     s = s.strip()
+    seen = 0
+    while s in TYPEDEFS and s not in INT_TYPES and seen < 10:
+        s = strip_quals(TYPEDEFS[s])
+        seen += 1
     if s in INT_TYPES:
         b, sg = INT_TYPES[s]
         return Ty("int", b, sg)
@@ -260,6 +276,9 @@ class TU:
                 self.funcs[n["name"]] = n
             elif k == "RecordDecl" and n.get("completeDefinition"):
                 self.index_record(n, None)
+            elif k == "TypedefDecl" and n.get("name") and n.get("type", {}).get("qualType"):
+                t = n["type"]
+                TYPEDEFS.setdefault(n["name"], t.get("desugaredQualType") or t["qualType"])
             elif k == "EnumDecl":
                 CUR_ENUMS.update(self.enums)
                 cur = 0
@@ -560,6 +579,7 @@ class Fn:
         self.tmp = 0
         self.memparams = set(opts.get("mem", []))
         self.uses_mem = bool(self.memparams)
+        self.writes_mem = bool(opts.get("writes"))
         self.params = []          # (cname, Ty, mode)  mode in scalar/value/inout/mem
         self.vars = {}            # cname -> {"ty": Ty, "mode": ...}
         self.ret = None
@@ -622,6 +642,8 @@ class Fn:
             parts.append(self.ret.lean())
         for n, ty in self.inouts():
             parts.append(struct_lean_name(ty.elem.name))
+        if self.writes_mem:
+            parts.append("(Nat → BitVec 8)")
         if not parts:
             return "Unit"
         return " × ".join(parts)
@@ -632,6 +654,8 @@ class Fn:
             parts.append(retv)
         for n, ty in self.inouts():
             parts.append(lname(n))
+        if self.writes_mem:
+            parts.append("mem")
         if not parts:
             return "()"
         return "(" + ", ".join(parts) + ")" if len(parts) > 1 else parts[0]
@@ -858,9 +882,16 @@ class Fn:
             if b.ty.kind == "bool":
                 b = self.as_int(b, Ty("int", 32, True))
             cnt = dot(b.text, "toNat")
-            if b.ty.signed:
-                gs.append("(BitVec.sle %s %s)" % (lit(0, b.ty.bits), b.text))
-            gs.append("(decide (%s < %d))" % (cnt, ty.bits))
+            if b.const is not None:
+                c = sval(b.const, b.ty)
+                cnt = str(c)
+                if not (0 <= c < ty.bits):
+                    gs.append("false")
+                    cnt = "0"
+            else:
+                if b.ty.signed:
+                    gs.append("(BitVec.sle %s %s)" % (lit(0, b.ty.bits), b.text))
+                gs.append("(decide (%s < %d))" % (cnt, ty.bits))
             if op == ">>":
                 txt = "(BitVec.sshiftRight %s %s)" % (a.text, cnt) if ty.signed else "(%s >>> %s)" % (a.text, cnt)
             else:
@@ -1154,6 +1185,10 @@ class Fn:
             t = self.fresh("w")
             pats.append(t)
             wb_tmps.append(t)
+        if callee.writes_mem:
+            if not self.writes_mem:
+                bad("call of memory-writing function '%s' from a function not declared as writing" % name, n)
+            pats.append("mem")
         pat = "(" + ", ".join(pats) + ")" if len(pats) > 1 else (pats[0] if pats else "()")
         n["_hoisted"] = V(tmp, callee.ret)
         lines = []
@@ -1356,7 +1391,7 @@ class Fn:
         lhs, rhs = s["inner"]
         compound = s.get("kind") == "CompoundAssignOperator"
         if self.uses_mem and self.mem_addr(lhs, env) is not None:
-            bad("store to memory is not translated", s)
+            return self.store(s, env, nxt)
         p = self.lvalue_path(lhs, env)
         if p["const"]:
             bad("assignment through a pointer to const", s)
@@ -1388,6 +1423,23 @@ class Fn:
             return self.guarded(v.guards, "let %s : %s := %s\n%s" % (lname(root), rty, self.update_text(p, v.text), nxt(env3)))
         return self.with_calls([rhs], env, fin)
 
+    def store(self, s, env, nxt):
+        lhs, rhs = s["inner"]
+        if s.get("kind") == "CompoundAssignOperator":
+            bad("compound assignment to memory", s)
+        if not self.writes_mem:
+            bad("store to memory in a function not declared as writing", s)
+
+        def fin(env2):
+            addr, gs, ty = self.mem_addr(lhs, env2)
+            if ty.kind != "int":
+                bad("store of non-integer", s)
+            v = self.as_int(self.expr(rhs, env2), ty)
+            w = ty.bits // 8
+            gs = list(gs) + list(v.guards) + ["(decide (%s + %d ≤ msize))" % (addr, w)]
+            return self.guarded(gs, "let mem : Nat → BitVec 8 := C.store%d mem %s %s\n%s" % (ty.bits, addr, v.text, nxt(env2)))
+        return self.with_calls([lhs, rhs], env, fin)
+
     def binary_vals(self, fake, a, b, ty):
         """arithmetic on already translated operands (compound assignment)"""
         op = fake["opcode"]
@@ -1397,9 +1449,16 @@ class Fn:
             if b.ty.kind == "bool":
                 b = self.as_int(b, Ty("int", 32, True))
             cnt = dot(b.text, "toNat")
-            if b.ty.signed:
-                gs.append("(BitVec.sle %s %s)" % (lit(0, b.ty.bits), b.text))
-            gs.append("(decide (%s < %d))" % (cnt, ty.bits))
+            if b.const is not None:
+                c = sval(b.const, b.ty)
+                cnt = str(c)
+                if not (0 <= c < ty.bits):
+                    gs.append("false")
+                    cnt = "0"
+            else:
+                if b.ty.signed:
+                    gs.append("(BitVec.sle %s %s)" % (lit(0, b.ty.bits), b.text))
+                gs.append("(decide (%s < %d))" % (cnt, ty.bits))
             if op == ">>":
                 txt = "(BitVec.sshiftRight %s %s)" % (a.text, cnt) if ty.signed else "(%s >>> %s)" % (a.text, cnt)
             else:
